@@ -1268,7 +1268,7 @@ static void vectorCase(long k)
 static void phaseVectors()
 {
   g_lt   = new vh::Lifetime("C14:AlignedVector:element");
-  long n = (long)vh::tier(4000, 200000);
+  long n = (long)vh::tier(4000, 120000);
   // forked: a release through the wrong function aborts inside the allocator / ASan
   vh::flushStats();
   g_gauge = (CrashGauge *)mmap(0, sizeof(CrashGauge), PROT_READ | PROT_WRITE, MAP_SHARED | MAP_ANONYMOUS, -1, 0);
@@ -1315,15 +1315,26 @@ int main(int argc, char **argv)
   vh::note("sanitizer", C14_ASAN ? "ASan+UBSan" : "none");
   vh::Rng r(vh::seed(), 14);
 
+  double t0 = vh::now(), t1;
+#define C14_LAP(name)                                   \
+  t1 = vh::now();                                       \
+  vh::maxi("seconds_" name, (long long)(t1 - t0 + 0.5)); \
+  t0 = t1;
   if (vh::st().onlyCase < 0) {
     phaseRelease();  // first: its verdict must not be blurred by the other phases' footprints
+    C14_LAP("release_monitor")
     phaseGrid(r);
+    C14_LAP("grid")
     phaseHuge();
     phaseBoundary();
     phaseRebind(r);
+    C14_LAP("huge_boundary_rebind")
     phaseRandom(1, (long)vh::tier(10000, 1000000));
+    C14_LAP("interleave_1_thread")
     phaseRandom(8, (long)vh::tier(10000, 1000000));
+    C14_LAP("interleave_8_threads")
   }
   phaseVectors();
+  C14_LAP("vector_histories")
   return vh::finish();
 }
